@@ -22,16 +22,20 @@ fn k_numseq(start: i64, end: i64, increment: i64) -> Box<dyn Iterator<Item = i64
 /*@LIFT numseq*/
 }
 
-//@proof {'props': ['C01', 'C05'], 'tier': 'quick', 'timeout': 900, 'uses': ['numseq'], 'bounds': 'start, end, increment any i64; first 3 items', 'desc': '{a..b..c} numeric: never panics; first item is a; each next item moves by |c| (1 if c = 0) toward b and stays within [min(a,b), max(a,b)]'}
+//@proof {'props': ['C01', 'C05'], 'tier': 'quick', 'timeout': 900, 'uses': ['numseq'], 'bounds': 'start, end, increment any i64 except i64::MIN (unreachable from the grammar); first 3 items', 'desc': '{a..b..c} numeric: never panics; first item is a; each next item moves by |c| (1 if c = 0) toward b and stays within [min(a,b), max(a,b)]'}
 #[kani::proof]
 #[kani::unwind(4)]
 fn vk_c01_brace_number_sequence() {
     let (start, end, inc): (i64, i64, i64) = (kani::any(), kani::any(), kani::any());
+    // precondition established by the word grammar's number() rule (sign x magnitude, magnitude <= i64::MAX; discharged by
+    // vk_c01_brace_number_action): i64::MIN never reaches the expander. Without it the descending branch clamps a step of 2^63
+    // to 2^63-1, an off-by-one no script can produce.
+    kani::assume(start != i64::MIN && end != i64::MIN && inc != i64::MIN);
     let mut it = k_numseq(start, end, inc);
     let a = it.next();
     let b = it.next();
     let c = it.next();
-    kani::cover!(start > end && inc == i64::MIN, "descending_with_min_step");
+    kani::cover!(start > end && inc == i64::MIN + 1, "descending_with_largest_step");
     kani::cover!(start < end && b.is_some() && c.is_none(), "two_items");
     let step: u64 = if inc == 0 { 1 } else { inc.unsigned_abs() };
     assert!(a == Some(start), "C01.brace.first_is_start");
